@@ -89,15 +89,28 @@ void splinetable<Alloc>::fit(const ::ndsparse& data,
 		                       +") shoulb be less than the number of spline dimensions ("
 		                       +std::to_string(data.ndim)+")");
 	
+	//Any table held so far is replaced: return its storage before allocating anew
+	//(auxiliary keys stored in a still empty table are kept)
+	if(ndim!=0)
+		release();
+	//If anything below fails, do not leave a partially constructed table behind
+	struct fit_guard{
+		splinetable& table;
+		bool armed;
+		~fit_guard(){ if(armed) table.release(); }
+	} guard{*this,true};
+	
 	//Initialize variables
 	ndim=data.ndim;
 	order = allocate<uint32_t>(ndim);
 	std::copy(splineOrder.begin(),splineOrder.end(),order);
 	this->knots = allocate<double_ptr>(ndim);
+	std::fill(this->knots,this->knots+ndim,nullptr);
 	nknots = allocate<uint64_t>(ndim);
 	for(uint32_t i=0; i<ndim; i++)
 		nknots[i]=knots[i].size();
 	extents = allocate<double_ptr>(ndim);
+	std::fill(extents,extents+ndim,nullptr);
 	extents[0] = allocate<double>(2*ndim);
 	naxes = allocate<uint64_t>(ndim);
 	for(uint32_t i=0; i<ndim; i++)
@@ -163,6 +176,7 @@ void splinetable<Alloc>::fit(const ::ndsparse& data,
 	cholmod_l_finish(&cholmod_state);
 	if(result!=0)
 		throw std::runtime_error("GLAM fit failed");
+	guard.armed=false;
 }
 	
 } //namespace photospline
